@@ -142,6 +142,8 @@ class Enc:
         self.encoded = False
         self.order = []         # ('mod', r, terms, const) | ('mul', t, a, b) in creation order
         self.linrows = []       # purely linear gate rows: (const, {atom: symmetric coef})
+        self.side = []          # closed formulas (own declarations, body) that must be VALID: lemmas the
+                                # spec hands to the main query; each is discharged by the solver first
 
     # ---- atoms -------------------------------------------------------------------------------
     def v(self, cell):
@@ -358,6 +360,8 @@ class Enc:
         itself, hence sound."""
         P = self.P
         unb = [(c, a) for c, a in terms if self.bound(a) >= P]
+        if not unb:
+            return self.boolean_row(terms, const)
         if len(unb) != 1 or unb[0][0] not in (1, -1):
             return False
         cu, u = unb[0]
@@ -397,6 +401,25 @@ class Enc:
             vals.add(-cu * r)
         if min(vals) < 0 or max(vals) >= 1 << 32:
             return False
+        if max(vals) <= 1 and all(self.bound(a) <= 2 for a in base) and len(base) <= 6:
+            # purely Boolean row: state it as a truth table over the literals (= a 1) so that the SAT core,
+            # not the arithmetic solver, propagates it
+            ones = []
+            for combo in itertools.product(*[range(2) for _ in base]):
+                env = dict(zip(base, combo))
+
+                def ev2(a):
+                    if isinstance(a, int):
+                        return a
+                    if a in pdef:
+                        return ev2(pdef[a][0]) * ev2(pdef[a][1])
+                    return env[a]
+                if -cu * (const + sum(c * ev2(a) for c, a in rest)) == 1:
+                    ones.append("(and true " + " ".join(f"(= {a} {v})" for a, v in env.items()) + ")")
+            self.lines.append(f"(assert (= {u} (ite (or false {' '.join(ones)}) 1 0)))")
+            self.set_bound(u, 2)
+            self.bool_atoms.add(u)
+            return True
         body = self.lin_smt([(-cu * c, a) for c, a in rest], -cu * const)
         self.lines.append(f"(assert (= {u} {body}))")
         self.set_bound(u, max(vals) + 1)
@@ -494,6 +517,41 @@ class Enc:
         self.flat_lemmas()
         self.encoded = True
 
+    def boolean_row(self, terms, const):
+        """Row all of whose cells are statically bits: assert its truth table over the literals (= a 1)
+        (exact: the row holds mod p iff the integer expression is 0 mod p; evaluated per assignment)."""
+        import itertools
+        P = self.P
+        pdef = {it[1]: (it[2], it[3]) for it in self.order if it[0] == "mul"}
+        base = []
+
+        def collect(a):
+            if isinstance(a, int):
+                return True
+            if a in pdef:
+                return collect(pdef[a][0]) and collect(pdef[a][1])
+            if self.bound(a) > 2:
+                return False
+            if a not in base:
+                base.append(a)
+            return True
+        if not terms or not all(collect(a) for _, a in terms) or len(base) > 8:
+            return False
+        sat = []
+        for combo in itertools.product(range(2), repeat=len(base)):
+            env = dict(zip(base, combo))
+
+            def ev(a):
+                if isinstance(a, int):
+                    return a
+                if a in pdef:
+                    return ev(pdef[a][0]) * ev(pdef[a][1])
+                return env[a]
+            if (const + sum(c * ev(a) for c, a in terms)) % P == 0:
+                sat.append("(and true " + " ".join(f"(= {a} {v})" for a, v in env.items()) + ")")
+        self.lines.append("(assert (or false " + " ".join(sat) + "))")
+        return True
+
     def infer_bounds(self, polys):
         """Static range inference to a fixpoint, before anything is emitted. A row with exactly one
         statically unbounded cell u (coefficient +-1, not inside a product) determines u = R mod p with R an
@@ -509,9 +567,9 @@ class Enc:
                 continue
             rows.append((sym(const, P), {a: sym(c, P) for a, c in lin.items() if c % P},
                          [(sym(k, P), a, b) for k, a, b in quad]))
-        for _ in range(12):
+        for it in range(400):
             changed = False
-            for const, lin, quad in rows:
+            for const, lin, quad in (rows if it % 2 == 0 else rows[::-1]):
                 inq = set()
                 for k, a, b in quad:
                     inq.add(a)
